@@ -89,6 +89,36 @@ SPECS = [
          fn="write::unit::convert::FilterUnit::<'a, R>::add_attribute_refs", enum='read::unit::AttributeValue'),
     dict(id='filter_expr_refs', prop='C19', rule='A-filter-expr', kind='arms',
          fn="write::unit::convert::FilterUnit::<'a, R>::add_expression_refs", enum='read::op::Operation'),
+    # ---- whole-function summaries (stores to self, calls, error variants)
+    dict(id='fn_unwind_context', prop='C06', rule='F-unwind-context', kind='fnsum', fns=[
+        'read::cfi::UnwindContext::<T, S>::reset', 'read::cfi::UnwindContext::<T, S>::save_initial_rules',
+        'read::cfi::UnwindContext::<T, S>::push_row', 'read::cfi::UnwindContext::<T, S>::pop_row',
+        'read::cfi::UnwindContext::<T, S>::get_initial_rule', 'read::cfi::UnwindContext::<T, S>::set_register_rule',
+        'read::cfi::UnwindContext::<T, S>::set_cfa', "read::cfi::UnwindTable::<'a, 'ctx, R, S>::next_row",
+        'read::cfi::UnwindContext::<T, S>::initialize']),
+    dict(id='fn_evaluation', prop='C07', rule='F-evaluation', kind='fnsum', fns=[
+        'read::op::Evaluation::<R, S>::evaluate_internal', 'read::op::Evaluation::<R, S>::end_of_expression',
+        'read::op::compute_pc', 'read::op::Evaluation::<R, S>::pop', 'read::op::Evaluation::<R, S>::push']),
+    dict(id='fn_endianity', prop='C09', rule='F-endianity', kind='fnsum', fns=[
+        'endianity::Endianity::read_u16', 'endianity::Endianity::read_u32', 'endianity::Endianity::read_u64',
+        'endianity::Endianity::read_u128', 'endianity::Endianity::read_uint', 'endianity::Endianity::write_u16',
+        'endianity::Endianity::write_u32', 'endianity::Endianity::write_u64', 'endianity::Endianity::write_u128',
+        'leb128::read::unsigned', 'leb128::read::signed', 'leb128::read::u16', 'leb128::read::skip',
+        'leb128::write::unsigned', 'leb128::write::signed', 'leb128::write::uleb128_size', 'leb128::write::sleb128_size',
+        'read::reader::Reader::read_initial_length', 'read::reader::Reader::read_address', 'read::reader::Reader::read_word',
+        'read::reader::Reader::read_offset', 'read::reader::Reader::read_sized_offset', 'read::reader::Reader::read_uint',
+        'read::reader::Reader::read_address_size']),
+    dict(id='fn_line_rows', prop='C04', rule='F-line-rows', kind='fnsum', fns=[
+        'read::line::LineRows::<R, Program, Offset>::next_row', 'read::line::LineRow::reset', 'read::line::LineRow::new',
+        'read::line::LineRow::apply_operation_advance', 'read::line::LineRow::exec_special_opcode',
+        'read::line::LineRow::apply_line_advance']),
+    dict(id='fn_entries', prop='C02', rule='F-entries', kind='fnsum', fns=[
+        "read::unit::EntriesRaw::<'abbrev, R>::read_abbreviation", "read::unit::EntriesRaw::<'abbrev, R>::read_entry",
+        "read::unit::EntriesRaw::<'abbrev, R>::new", "read::unit::EntriesRaw::<'abbrev, R>::seek_forward",
+        "read::unit::EntriesCursor::<'abbrev, R>::next_entry", "read::unit::EntriesCursor::<'abbrev, R>::next_dfs",
+        "read::unit::EntriesCursor::<'abbrev, R>::next_sibling", "read::unit::EntriesTree::<'abbrev, R>::next",
+        "read::unit::EntriesTree::<'abbrev, R>::root", 'read::abbrev::Abbreviations::insert', 'read::abbrev::Abbreviations::get',
+        'read::abbrev::Abbreviations::parse', 'read::abbrev::Abbreviation::parse']),
 ]
 
 
